@@ -15,24 +15,24 @@ import (
 // Struct fields may reference anything (self- and mutual recursion included).
 
 type irOpts struct {
-	Pkgs          int
-	MaxObjs       int
-	Depth         int
-	Intersections bool
-	Slots         bool // composable slots
-	ConstRefs     bool
-	Unions        bool
-	AnonStructs   bool
-	AnonEnums     bool
-	Defaults      bool
-	Hints         bool
-	CaseVariants  bool // object names that differ only in letter case across packages
+	Pkgs             int
+	MaxObjs          int
+	Depth            int
+	Intersections    bool
+	Slots            bool // composable slots
+	ConstRefs        bool
+	Unions           bool
+	AnonStructs      bool
+	AnonEnums        bool
+	Defaults         bool
+	Hints            bool
+	CaseVariants     bool // object names that differ only in letter case across packages
 	NumericEnumNames bool
 	// tagged classes (kept out of the main corpora; see DESIGN §3.10)
-	NestedUnions  bool // a union somewhere below a union branch
-	AliasObjects  bool // objects whose type is a reference
-	UniqueNames   bool // object names unique across packages
-	inUnion       int
+	NestedUnions bool // a union somewhere below a union branch
+	AliasObjects bool // objects whose type is a reference
+	UniqueNames  bool // object names unique across packages
+	inUnion      int
 }
 
 func defaultIROpts() irOpts {
